@@ -659,7 +659,7 @@ func decodeConnect(data []byte) (Message, error) {
 		UsernameFlag:   flags&(1<<7) > 0,
 		PasswordFlag:   flags&(1<<6) > 0,
 		WillRetainFlag: flags&(1<<5) > 0,
-		WillQOS:        (flags & (1 << 4)) + (flags & (1 << 3)),
+		WillQOS:        (flags >> 3) & 0x3,
 		WillFlag:       flags&(1<<2) > 0,
 		CleanSeshFlag:  flags&(1<<1) > 0,
 	}
